@@ -111,7 +111,7 @@ class Batch:
                         '[dependencies]\nverif_support = { path = "%s/support" }\n'
                         'serde = { version = "1.0.219", features = ["derive"] }\nserde_json = "1.0.140"\n'
                         'chrono = { version = "0.4.40", features = ["serde"] }\nuuid = { version = "1.16.0", features = ["serde"] }\n'
-                        'regress = "0.10.3"\n' % (self.crate(k), ENGINE))
+                        'regress = "0.10.3"\nschemars = "0.8.22"\n' % (self.crate(k), ENGINE))
         with open(os.path.join(self.dir, "Cargo.toml"), "w") as f:
             f.write('[workspace]\nmembers = [%s]\nresolver = "2"\n\n[profile.dev]\ndebug = 0\nopt-level = 0\nincremental = false\n'
                     % ", ".join('"%s"' % m for m in members))
